@@ -301,8 +301,10 @@ func (s *Session) run(ctx context.Context, calldepth int, funcv *bigslice.FuncVa
 			return err
 		}
 		// Freeze the environment to ensure that compilations are consistent
-		// (e.g. across workers).
-		inv.Env.Freeze()
+		// (e.g. across workers). The tasks hold copies of the invocation
+		// taken during compilation, and those copies are what executors
+		// transport to workers, so they are frozen too.
+		freezeEnv(&inv, tasks)
 		// TODO(marius): give a way to provide names for these groups
 		if s.status != nil {
 			// Make the slice status group come before the more granular task
@@ -346,6 +348,18 @@ func (s *Session) run(ctx context.Context, calldepth int, funcv *bigslice.FuncVa
 		inv:      inv,
 		tasks:    tasks,
 	}, err
+}
+
+// freezeEnv freezes the compile environment of inv and of the copies of inv
+// held by the tasks compiled from it.
+func freezeEnv(inv *execInvocation, tasks []*Task) {
+	inv.Env.Freeze()
+	_ = iterTasks(tasks, func(task *Task) error {
+		if task.Invocation.Index == inv.Index {
+			task.Invocation.Env.Freeze()
+		}
+		return nil
+	})
 }
 
 // Parallelism returns the desired amount of evaluation parallelism.
